@@ -81,6 +81,10 @@ func c01Run(t *testing.T, sc Scenario, res *Result) {
 		res.inc("phase:" + inv.phase())
 	}
 	v := judgeReality(cr, cc.flags["rapid.nofailfile"] == "true")
+	if v.inconclusive != "" {
+		res.inconclusive(v.inconclusive + " program: " + clip(p.Desc, 300))
+		return
+	}
 	if v.failedReported {
 		res.inc("failures_reported")
 		res.inc("failures_reported:" + cc.name)
@@ -172,6 +176,10 @@ func c05Run(t *testing.T, sc Scenario, res *Result) {
 	res.inc("checks_run")
 	res.count("invocations", int64(len(cr.log.Invs)))
 	v := judgeChain(cr)
+	if v.inconclusive != "" {
+		res.inconclusive(v.inconclusive + " program: " + clip(p.Desc, 300))
+		return
+	}
 	if v.failedReported {
 		res.inc("failures_reported")
 		res.count("accepted_steps", int64(v.accepted))
@@ -194,6 +202,9 @@ func c05Run(t *testing.T, sc Scenario, res *Result) {
 	}
 	// the report must also be real (C01 oracle): "less small, never wrong"
 	v2 := judgeReality(cr, true)
+	if v2.inconclusive != "" {
+		v2 = &verdict{detail: map[string]any{}}
+	}
 	probs := append(v.problems, v2.problems...)
 	for k, d := range v2.detail {
 		v.detail[k] = d
